@@ -10,6 +10,17 @@
 //! run maintenance), recording wrapper around every shard's `CachePolicy` (public
 //! `cache_policy_factory`), recording `EvictionListener` whose deliveries are awaited after each
 //! call (the number of `try_send`s of a call is derived from metric deltas + the policy log).
+//!
+//! Waiting for expected notifications is bounded (`NOTIFY_WAIT`, then one unrelated probe removal: the
+//! notification channel is FIFO with a single consumer, so a delivered probe proves that everything sent
+//! earlier was delivered): a notification the metrics / policy log demand but that was never sent is reported
+//! as `listener:removal-not-notified` and the case ends there.
+//!
+//! Contended async stream (C17): `stream_open b` / `stream_poll [n]` poll `AsyncCache::iter_stream_with_batch_size`
+//! by hand with a counting waker, `hold_entry k` keeps a sync `cache.entry(k)` guard (Vacant or Occupied) alive so
+//! that shard `k % shards` stays write-locked and the stream's refill future is parked at its `read_async().await`
+//! (`pending`), `release_entry` drops the guard (`woke=` wake-ups the stream's waker received). While a guard is held
+//! only these operations and `advance` are executed; any other operation drops the open stream.
 use fibre_cache::error::ComputeResult;
 use fibre_cache::policy::{AdmissionDecision, CachePolicy};
 use fibre_cache::snapshot::CacheSnapshot;
@@ -18,8 +29,16 @@ use std::collections::{BTreeMap, BTreeSet, HashMap, VecDeque};
 use std::hash::{BuildHasher, Hasher};
 use std::sync::atomic::{AtomicBool, AtomicU64, AtomicUsize, Ordering};
 use std::sync::{Arc, Mutex};
+use std::pin::Pin;
+use std::task::{Context, Poll, Wake, Waker};
 use std::time::{Duration, Instant};
+use futures_core::Stream;
 use vcommon::*;
+
+/// how long a call's expected notifications are awaited before the notifier is probed with an
+/// unrelated send (FIFO channel, one consumer: if the probe is delivered, everything sent before it was)
+const NOTIFY_WAIT: Duration = Duration::from_millis(1200);
+const NOTIFY_PROBE_WAIT: Duration = Duration::from_millis(800);
 
 // ------------------------------------------------------------------ deterministic hasher
 #[derive(Clone, Default)]
@@ -96,6 +115,20 @@ impl EvictionListener<u64, u64> for RecListener {
     self.0.cv.notify_all();
   }
 }
+
+// ------------------------------------------------------------------ hand-polled stream, kept entry guard
+/// waker that only counts (the harness polls by hand)
+struct CountWaker(AtomicUsize);
+impl Wake for CountWaker {
+  fn wake(self: Arc<Self>) { self.0.fetch_add(1, Ordering::SeqCst); }
+  fn wake_by_ref(self: &Arc<Self>) { self.0.fetch_add(1, Ordering::SeqCst); }
+}
+/// `ac.iter_stream_with_batch_size(b)` polled one `poll_next` at a time
+struct StreamH { st: Pin<Box<dyn Stream<Item = (u64, Arc<u64>)>>>, batch: usize, out: Vec<(u64, u64, u64)>, live0: BTreeMap<u64, u64>, advanced: bool, ended: bool, checked: usize,
+  wk: Arc<CountWaker>, pendings: usize }
+/// a sync `cache.entry(k)` (Vacant or Occupied) kept alive: the shard's write lock stays held.
+/// `g` borrows the boxed handle `_c` (stable address); fields drop in declaration order, `g` first.
+struct HeldGuard { g: Option<Entry<'static, u64, u64, IdHash>>, _c: Box<C> }
 
 struct ThreadSpawner;
 impl fibre_cache::TaskSpawner for ThreadSpawner {
@@ -182,7 +215,11 @@ struct Shadow {
 
 struct Runner { cfg: Cfg, env: Env, c: C, ac: AC, lis: Arc<Lis>, lis_seen: usize, gate_sends: usize, sh: Shadow, tr: Tr, now: u64,
   held: Vec<Arc<u64>>, snap_bytes: Option<Vec<u8>>, fails: Vec<(String, String)>, nkeys: u64, spurious: bool, case_id: String,
-  occupied_before: BTreeMap<u64, bool>, expected_loads: u64, gate_pending: Vec<Removal>, abandoned: Option<&'static str> }
+  occupied_before: BTreeMap<u64, bool>, expected_loads: u64, gate_pending: Vec<Removal>, abandoned: Option<&'static str>,
+  /// the open hand-polled stream / the kept entry guard (declared after `c`/`ac`: both own their cache handle)
+  stream: Option<StreamH>, guard: Option<HeldGuard>,
+  /// a monitor failure after which the rest of the case cannot be run meaningfully (the transcript ends here)
+  stop: bool, last_attempt: bool }
 
 fn bo<F: std::future::Future>(f: F) -> F::Output { futures_executor::block_on(f) }
 fn show_opt(v: Option<u64>) -> String { v.map(|x| format!("some:{x}")).unwrap_or_else(|| "none".into()) }
@@ -199,7 +236,7 @@ impl Runner {
     let sh = Shadow { latest: BTreeMap::new(), vids: HashMap::new(), stale_timers: BTreeMap::new(), pending: vec![VecDeque::new(); cfg.shards], overflowed: false,
       adv: vec![0; cfg.shards], notified: BTreeSet::new(), cap_pass_mismatch: false, restored: false };
     let tr = Tr::new(id, &cfg.header());
-    Runner { now: cfg.t0, cfg, env, c, ac, lis, lis_seen: 0, gate_sends: 0, sh, tr, held: vec![], snap_bytes: None, fails: vec![], nkeys, spurious: false, case_id: id.to_string(), occupied_before: BTreeMap::new(), expected_loads: 0, gate_pending: vec![], abandoned: None }
+    Runner { now: cfg.t0, cfg, env, c, ac, lis, lis_seen: 0, gate_sends: 0, sh, tr, held: vec![], snap_bytes: None, fails: vec![], nkeys, spurious: false, case_id: id.to_string(), occupied_before: BTreeMap::new(), expected_loads: 0, gate_pending: vec![], abandoned: None, stream: None, guard: None, stop: false, last_attempt: false }
   }
   fn fail(&mut self, sig: &str, msg: String) { if !self.fails.iter().any(|f| f.0 == sig) { self.fails.push((sig.to_string(), msg)); } }
   fn shard(&self, k: u64) -> usize { (k % self.cfg.shards as u64) as usize }
@@ -276,6 +313,12 @@ impl Runner {
     if t.is_empty() { return; }
     let (name, asy) = match t[0].strip_prefix("a.") { Some(n) => (n, true), None => (t[0], false) };
     let n = |i: usize| -> u64 { t.get(i).and_then(|s| s.parse().ok()).unwrap_or(0) };
+    // ---- hand-polled stream / kept entry guard: nothing here may touch a shard lock (no passive observation)
+    if matches!(name, "hold_entry" | "release_entry" | "stream_poll") || (name == "advance" && self.guard.is_some()) { self.exec_stream(op, name, &t); return; }
+    // every other call would block on the held shard lock (or, with several shards, might): not executed
+    if self.guard.is_some() { self.tr.raw(&format!("# skipped, an entry guard is held: {op}")); return; }
+    // every call other than a clock advance drops the open stream
+    if name != "advance" { self.close_stream(); } else if let Some(s) = self.stream.as_mut() { s.advanced = true; }
     // passive observations before the call
     self.occupied_before = (0..self.nkeys).map(|k| (k, self.occupied(k))).collect();
     let passive = !self.cfg.moi;
@@ -283,6 +326,7 @@ impl Runner {
     self.env.plog.lock().unwrap().lock().unwrap().clear();
     let mut order_probe: Option<String> = None;
     let mut own_removed: Vec<(u64, u64)> = vec![]; // bindings removed by this call on request (Invalidated expected)
+    let mut silent: Vec<(u64, Binding)> = vec![]; // remove/invalidate found "nothing" although the key was resident
     let mut enumerated: Option<(&'static str, Vec<(u64, u64, u64)>, BTreeMap<u64, u64>, bool)> = None;
     let mut cleared = false;
     let res: String = match name {
@@ -312,6 +356,7 @@ impl Runner {
         let r = if asy { bo(self.ac.remove(&k)).map(|a| *a) } else { self.c.remove(&k).map(|a| *a) };
         // remove hands the stored value to the caller, expired or not: only the register clause applies
         if let Some(v) = r { if self.sh.latest.get(&k).map(|b| b.vid) != Some(v) { self.read("remove", k, r, false, true); } own_removed.push((k, v)); }
+        else if self.occupied_before.get(&k).copied().unwrap_or(false) { if let Some(b) = self.sh.latest.get(&k).cloned() { silent.push((k, b)); } }
         self.end_binding(k, End::Removed, true, "remove");
         show_opt(r)
       }
@@ -319,6 +364,7 @@ impl Runner {
         let k = n(1);
         let r = if asy { bo(self.ac.invalidate(&k)) } else { self.c.invalidate(&k) };
         if r { if let Some(b) = self.sh.latest.get(&k) { own_removed.push((k, b.vid)); } else { self.fail("invalidate:reports-removal-of-absent-binding", format!("invalidate({k}) returned true, no live write of {k}")); } }
+        else if self.occupied_before.get(&k).copied().unwrap_or(false) { if let Some(b) = self.sh.latest.get(&k).cloned() { silent.push((k, b)); } }
         self.end_binding(k, End::Removed, true, "invalidate");
         (r as u8).to_string()
       }
@@ -451,8 +497,21 @@ impl Runner {
       "snapshot" => {
         let live0 = self.live_set();
         let snap = if asy { bo(self.ac.to_snapshot()) } else { self.c.to_snapshot() };
-        let bytes = bincode::serialize(&snap).expect("serialize");
-        let (entries, cap, shards) = decode_snapshot(&bytes);
+        // the real serialisation round trip (bincode: compact, not self-describing), judged without any
+        // knowledge of the byte layout: the Debug rendering of the snapshot before and after must agree
+        let dbg0 = format!("{snap:?}");
+        let (n_entries, n_no_ttl) = (dbg0.matches("ttl_remaining:").count(), dbg0.matches("ttl_remaining: None").count());
+        let what = format!("to_snapshot() with {n_entries} entries ({n_no_ttl} without a ttl, cache ttl={})", opt(self.cfg.ttl));
+        let bytes = match bincode::serialize(&snap) { Ok(b) => b,
+          Err(e) => { self.fail("snapshot:serialization-round-trip-failed", format!("{what}: bincode::serialize failed: {e}")); self.stop = true; vec![] } };
+        if !self.stop { match bincode::deserialize::<CacheSnapshot<u64, u64>>(&bytes) {
+          Err(e) => { self.fail("snapshot:serialization-round-trip-failed", format!("{what}: the {} serialized bytes do not deserialize: {e}", bytes.len())); self.stop = true; }
+          Ok(back) => { let dbg1 = format!("{back:?}"); if dbg1 != dbg0 {
+            self.fail("snapshot:round-trip-changed-entries", format!("{what}: deserialize(serialize(snapshot)) differs from the snapshot: {} -> {}", clip(&dbg0), clip(&dbg1))); self.stop = true; } } } }
+        let Some((entries, cap, shards)) = decode_snapshot(&bytes) else {
+          if !self.stop { self.fail("snapshot:serialization-round-trip-failed", format!("{what}: the serialized bytes do not have the bincode layout of CacheSnapshot<u64,u64>")); self.stop = true; }
+          self.tr.line(op, "[undecodable]"); return; };
+        if self.stop { self.tr.line(op, "[undecodable]"); return; }
         enumerated = Some(("to_snapshot", entries.iter().map(|e| (e.0, e.1, self.now)).collect(), live0, false));
         for (k, v, c, ttl) in &entries {
           if let Some(b) = self.sh.latest.get(k).cloned() { if b.vid == *v {
@@ -467,8 +526,9 @@ impl Runner {
       }
       "restore" => {
         if let Some(bytes) = self.snap_bytes.clone() {
-          let snap: CacheSnapshot<u64, u64> = bincode::deserialize(&bytes).expect("deserialize");
-          let (entries, _, _) = decode_snapshot(&bytes);
+          let (snap, entries) = match (bincode::deserialize::<CacheSnapshot<u64, u64>>(&bytes), decode_snapshot(&bytes)) {
+            (Ok(s), Some((e, _, _))) => (s, e),
+            _ => { self.fail("snapshot:serialization-round-trip-failed", "the serialized snapshot does not deserialize at restore time".to_string()); self.stop = true; self.tr.line(op, "[undecodable]"); return; } };
           self.held.clear();
           let (c, lis) = build(&self.cfg, &self.env, Some(snap));
           self.ac = c.to_async(); self.c = c; self.lis = lis; self.lis_seen = 0; self.gate_sends = 0;
@@ -482,6 +542,14 @@ impl Runner {
             self.sh.latest.insert(k, Binding { vid: v, cost: c, exp: ttl.map(|t| self.now + t), last_access: self.now, origin: "restore", timer_due: None, admitted: false, dropped_event: false });
           }
         }
+        "-".into()
+      }
+      "stream_open" => {
+        // hash order first (the probe performs the introspection flush the real call starts with)
+        order_probe = Some(self.probe_order());
+        let batch = n(1) as usize;
+        let st = self.ac.iter_stream_with_batch_size(batch);
+        self.stream = Some(StreamH { st: Box::pin(st), batch, out: vec![], live0: BTreeMap::new(), advanced: false, ended: false, checked: 0, wk: Arc::new(CountWaker(AtomicUsize::new(0))), pendings: 0 });
         "-".into()
       }
       "hold" => {
@@ -526,6 +594,8 @@ impl Runner {
     // ---- notifications of this call
     let mut nsec = String::new();
     let mut notifs: Vec<(u64, u64, char)> = vec![];
+    // Some(..): expected notifications of this call were provably never sent
+    let mut lost: Option<String> = None;
     let gate_was_closed = self.lis.gate_closed.load(Ordering::SeqCst) || (name == "gate" && t.get(1) == Some(&"open"));
     if self.cfg.lis {
       let m1 = self.c.metrics();
@@ -534,28 +604,42 @@ impl Runner {
       let mut sends = if name == "restore" { 0 } else { (m1.invalidations - m0.invalidations) + (m1.evicted_by_ttl - m0.evicted_by_ttl) + (m1.evicted_by_tti - m0.evicted_by_tti)
         + (m1.evicted_by_capacity - m0.evicted_by_capacity).saturating_sub(ev_victims) + cap_pass_removed.len() as u64 };
       if name == "gate" && t.get(1) == Some(&"open") { sends = self.gate_sends.min(129) as u64; self.gate_sends = 0; }
+      let mut want_extra = 0usize;
       if self.lis.gate_closed.load(Ordering::SeqCst) {
-        if self.gate_sends == 0 && sends > 0 { let t0 = Instant::now(); while !self.lis.in_flight.load(Ordering::SeqCst) && t0.elapsed() < Duration::from_secs(20) { std::thread::sleep(Duration::from_micros(50)); } }
-        self.gate_sends += sends as usize;
-      } else {
-        let want = self.lis_seen + sends as usize;
+        let mut reached = true;
+        if self.gate_sends == 0 && sends > 0 { let t0 = Instant::now(); while !self.lis.in_flight.load(Ordering::SeqCst) && t0.elapsed() < NOTIFY_WAIT { std::thread::sleep(Duration::from_micros(50)); }
+          reached = self.lis.in_flight.load(Ordering::SeqCst); }
+        if reached { self.gate_sends += sends as usize; }
+        else {
+          // the first notification behind the closed gate never reached the listener: open the gate and find out
+          // below whether it was sent at all (the case ends here in either outcome)
+          self.lis.gate_closed.store(false, Ordering::SeqCst); want_extra = self.gate_sends; self.gate_sends = 0; self.stop = true;
+        }
+      }
+      if !self.lis.gate_closed.load(Ordering::SeqCst) {
+        let want = self.lis_seen + sends as usize + want_extra;
         let t0 = Instant::now();
         let mut ev = self.lis.events.lock().unwrap();
-        while ev.len() < want && t0.elapsed() < Duration::from_secs(20) { ev = self.lis.cv.wait_timeout(ev, Duration::from_millis(200)).unwrap().0; }
-        if t0.elapsed() > Duration::from_secs(3) { eprintln!("cacheh: waited {:?} for the notifier thread ({} of {} delivered) in case {}", t0.elapsed(), ev.len() - self.lis_seen.min(ev.len()), sends, self.case_id); }
+        while ev.len() < want && t0.elapsed() < NOTIFY_WAIT { ev = self.lis.cv.wait_timeout(ev, Duration::from_millis(50)).unwrap().0; }
         if ev.len() < want {
-          // not delivered in 20 s: lost, or stuck in the queue behind a notifier thread that was not woken?
-          // poke the channel with an unrelated removal, classify, and have the case re-run from scratch.
+          // Not delivered within NOTIFY_WAIT: never sent, or stuck in the queue behind a notifier thread that was not
+          // woken (F20)? The channel is FIFO with one consumer, so an unrelated removal sent NOW settles it: once its
+          // notification is delivered, everything that was sent before it has been delivered too.
           drop(ev);
-          self.c.insert(999_999, 1, 1); self.c.remove(&999_999);
+          bo(self.ac.insert(999_999, 1, 1)); let _ = bo(self.ac.remove(&999_999));
           let t1 = Instant::now();
           ev = self.lis.events.lock().unwrap();
-          while ev.len() < want + 1 && t1.elapsed() < Duration::from_secs(5) { ev = self.lis.cv.wait_timeout(ev, Duration::from_millis(100)).unwrap().0; }
-          self.abandoned = Some(if ev.len() >= want + 1 { "listener:notification-stuck-in-queue-until-next-send" } else { "listener:removal-not-notified" });
-        }
+          while !ev.iter().any(|e| e.0 == 999_999) && t1.elapsed() < NOTIFY_PROBE_WAIT { ev = self.lis.cv.wait_timeout(ev, Duration::from_millis(20)).unwrap().0; }
+          let probe_delivered = ev.iter().any(|e| e.0 == 999_999);
+          ev.retain(|e| e.0 != 999_999);
+          if ev.len() >= want { self.abandoned = Some("listener:notification-stuck-in-queue-until-next-send"); }   // re-run from scratch, signature attached
+          else if probe_delivered || self.last_attempt { lost = Some(format!("{op}: the metrics / policy log of the call imply {} notification(s), {} arrived within {:?}{}", sends as usize + want_extra, ev.len() - self.lis_seen.min(ev.len()), t0.elapsed(),
+            if probe_delivered { "; a later, unrelated removal WAS notified, so the missing ones were never sent" } else { "; a later, unrelated removal was not notified either" })); self.stop = true; }
+          else { self.abandoned = Some("listener:notifier-thread-stalled"); }   // neither arrived: re-run from scratch
+        } else if self.stop { self.abandoned = Some("listener:notifier-thread-stalled"); }   // gate forced open but everything arrived after all: re-run
         notifs = ev[self.lis_seen.min(ev.len())..].to_vec();
         drop(ev);
-        if notifs.len() != sends as usize { self.fail("listener:delivered-count-differs-from-removals-counted-by-metrics", format!("{op}: metrics/policy log imply {sends} notifications, listener got {}", notifs.len())); }
+        if lost.is_none() && notifs.len() != sends as usize + want_extra { self.fail("listener:delivered-count-differs-from-removals-counted-by-metrics", format!("{op}: metrics/policy log imply {sends} notifications, listener got {}", notifs.len())); }
         self.lis_seen += notifs.len();
       }
       notifs.sort();
@@ -575,6 +659,9 @@ impl Runner {
       if matches!(name, "insert" | "insert_ttl") { let k: u64 = n(1);
         if !before.get(&k).copied().unwrap_or(false) && !occ_after.get(&k).copied().unwrap_or(false) { if let Some(b) = self.sh.latest.get(&k).cloned() { vanished.push((k, b)); } } }
     }
+    // a remove/invalidate that reported a miss but took a resident entry out of the map is a removal all the same
+    for (k, b) in &silent { if !occ_after.get(k).copied().unwrap_or(false) {
+      removals.push(Removal { k: *k, vid: b.vid, class: if self.expired_ref(b).is_some() { 'E' } else { 'I' }, unexpired: self.expired_ref(b).is_none(), own: false }); } }
     for (k, b) in &vanished {
       let mut stale_why = "";
       let unexpired = self.expired_ref(b).is_none();
@@ -619,11 +706,19 @@ impl Runner {
         let _ = maint_ran;
         // completeness (the queue never filled: at most 129 notifications were outstanding)
         if pool.len() <= 129 { for x in &pool { if !notifs.iter().any(|y| y.0 == x.k && y.1 == x.vid) {
-          self.fail("listener:removal-not-notified", format!("{op}: {}:{} left the cache ({}) without a notification", x.k, x.vid, x.class)); } } }
+          let why = match (x.class, x.own) { ('I', _) => "removed on request: Invalidated expected", ('C', _) => "evicted for capacity / rejected by the admission policy: Capacity expected", _ => if x.unexpired { "removed by a maintenance pass" } else { "removed after its deadline: Expired (or Invalidated, if on request) expected" } };
+          self.fail("listener:removal-not-notified", format!("{op}: key {} value {} left the cache ({why}) and the listener was never told{}", x.k, x.vid, lost.as_ref().map(|l| format!(" [{l}]")).unwrap_or_default())); } } }
       }
+      // expected sends that provably never happened, whichever binding they were about
+      if let Some(l) = &lost { if !self.fails.iter().any(|f| f.0 == "listener:removal-not-notified") { let l = l.clone(); self.fail("listener:removal-not-notified", l); } }
     }
     // bindings that left the map are forgotten by the implementation (the register may forget)
     for (k, _) in &vanished { let why: &'static str = if cap_class.contains(k) { "capacity-eviction" } else { "expiry-cleanup" }; self.end_binding(*k, End::Removed, false, why); }
+    // the live set the hand-polled stream must enumerate: resident and unexpired after `stream_open`'s flush
+    if name == "stream_open" {
+      let live: BTreeMap<u64, u64> = self.sh.latest.iter().filter(|(k, b)| occ_after.get(*k).copied().unwrap_or(false) && self.expired_ref(b).is_none()).map(|(k, b)| (*k, b.vid)).collect();
+      if let Some(s) = self.stream.as_mut() { s.live0 = live; }
+    }
     // ---- C13
     for (real, freed) in &cap_passes { let r: u64 = real.iter().map(|v| vanished.iter().find(|x| x.0 == *v).map_or(0, |x| x.1.cost)).sum(); if r != *freed { self.sh.cap_pass_mismatch = true; } }
     let resident_cost: u64 = occ_after.iter().filter(|(_, o)| **o).map(|(k, _)| self.sh.latest.get(k).map_or(0, |b| b.cost)).sum();
@@ -651,6 +746,77 @@ impl Runner {
     if !nsec.is_empty() { line.push_str(" ; N "); line.push_str(&nsec); }
     if let Some(o) = order_probe { line.push_str(" ; O "); line.push_str(&o); }
     self.tr.line(op, &line);
+  }
+
+  /// `hold_entry k` | `release_entry` | `stream_poll [n]` | `advance d` while a guard is held
+  fn exec_stream(&mut self, op: &str, name: &str, t: &[&str]) {
+    let n = |i: usize| -> u64 { t.get(i).and_then(|s| s.parse().ok()).unwrap_or(0) };
+    match name {
+      "hold_entry" => {
+        if self.guard.is_some() { self.tr.raw(&format!("# skipped, an entry guard is already held: {op}")); return; }
+        let k = n(1);
+        let c: Box<C> = Box::new(self.c.clone());
+        // SAFETY: the boxed handle is never moved out of / dropped before the guard that borrows it (HeldGuard)
+        let r: &'static C = unsafe { &*(&*c as *const C) };
+        let e = r.entry(k);
+        let res = if matches!(e, Entry::Occupied(_)) { "occupied" } else { "vacant" };
+        self.guard = Some(HeldGuard { g: Some(e), _c: c });
+        self.tr.line(op, res);
+      }
+      "release_entry" => {
+        let Some(mut g) = self.guard.take() else { self.tr.raw(&format!("# skipped, no entry guard is held: {op}")); return; };
+        let w0 = self.stream.as_ref().map_or(0, |s| s.wk.0.load(Ordering::SeqCst));
+        drop(g.g.take()); drop(g);
+        let woke = self.stream.as_ref().map_or(0, |s| s.wk.0.load(Ordering::SeqCst)) - w0;
+        self.tr.line(op, &format!("- woke={woke}"));
+      }
+      "stream_poll" => {
+        if self.stream.is_none() { self.tr.raw(&format!("# skipped, no stream is open: {op}")); return; }
+        let times = if t.len() > 1 { n(1).max(1) } else { 1 };
+        let now = self.now;
+        let mut res: Vec<String> = vec![];
+        let mut ended = false;
+        { let s = self.stream.as_mut().unwrap();
+          let waker = Waker::from(s.wk.clone());
+          let mut cx = Context::from_waker(&waker);
+          for _ in 0..times {
+            match s.st.as_mut().poll_next(&mut cx) {
+              Poll::Pending => { s.pendings += 1; res.push("pending".into()); break; }
+              Poll::Ready(Some((k, v))) => { s.out.push((k, *v, now)); res.push(format!("item:{k}:{}", *v)); }
+              Poll::Ready(None) => { res.push("end".into()); ended = true; break; }
+            }
+          } }
+        self.check_stream(ended);
+        self.tr.line(op, &res.join(" "));
+      }
+      _ => { // advance under a held guard
+        let d = n(1); verif_clock::advance(d * 1_000_000); self.now += d;
+        if let Some(s) = self.stream.as_mut() { s.advanced = true; }
+        self.tr.line(op, "-");
+      }
+    }
+  }
+  fn close_stream(&mut self) { if self.stream.is_some() { self.check_stream(false); self.stream = None; } }
+  /// C17 on the hand-polled stream: no entry twice (checked as items arrive), and once the end has been
+  /// reported every entry that was live when the stream was opened (and, if the clock moved meanwhile, is still
+  /// live) has been yielded. The cache content cannot change while the stream is open (only `advance` runs).
+  fn check_stream(&mut self, ended: bool) {
+    let Some(mut s) = self.stream.take() else { return; };
+    let now = self.now;
+    let fresh: Vec<(u64, u64, u64)> = s.out[s.checked..].to_vec();
+    for (i, (k, v, at)) in fresh.iter().enumerate() {
+      if s.out[..s.checked + i].iter().any(|x| x.0 == *k) {
+        self.fail("iter:stream-entry-yielded-twice", format!("iter_stream_with_batch_size({}) polled by hand yielded key {k} (value {v}) twice; {} poll(s) returned Pending because the shard lock was held by an entry guard", s.batch, s.pendings)); }
+      if s.advanced { if self.sh.latest.get(k).map(|b| b.vid) != Some(*v) { self.read("iter_stream", *k, Some(*v), false, false); } }
+      else { self.now = *at; self.read("iter_stream", *k, Some(*v), false, false); self.now = now; }
+    }
+    s.checked = s.out.len();
+    if ended && !s.ended {
+      s.ended = true;
+      for (k, v) in &s.live0 { if !s.out.iter().any(|x| x.0 == *k) && self.sh.latest.get(k).map_or(false, |b| b.vid == *v && self.expired_ref(b).is_none()) {
+        self.fail("iter:stream-entry-missed", format!("iter_stream_with_batch_size({}) polled by hand reported its end without yielding live entry {k}:{v}; {} poll(s) returned Pending", s.batch, s.pendings)); } }
+    }
+    self.stream = Some(s);
   }
 
   /// HashMap iteration order of every resident key (expired or not): rewind the clock so that
@@ -687,6 +853,7 @@ impl Runner {
   }
 
   fn finish(mut self) -> (String, bool) {
+    self.close_stream(); self.guard = None;
     self.lis.gate_closed.store(false, Ordering::SeqCst);
     let fails = std::mem::take(&mut self.fails);
     let only = std::env::var("VERIF_PROP").ok();
@@ -700,35 +867,45 @@ fn prop_of(sig: &str) -> &'static str {
   let sig = sig.strip_prefix("stress:").unwrap_or(sig);
   if sig.starts_with("listener:") { "C16" }
   else if sig.starts_with("accounting:") || sig.starts_with("capacity:") { "C13" }
-  else if sig.starts_with("snapshot:") || sig.contains(":yields-") || sig.contains(":omits-") { "C17" }
+  else if sig.starts_with("snapshot:") || sig.starts_with("iter:stream-") || sig.contains(":yields-") || sig.contains(":omits-") { "C17" }
   else if sig.contains("expired") || sig.contains("unbounded") || sig.starts_with("fetch_with:") || sig.starts_with("maintenance:") { "C12" }
   else { "C11" }
 }
 
-/// bincode (fixint, little endian) layout of `CacheSnapshot<u64,u64>`
-fn decode_snapshot(b: &[u8]) -> (Vec<(u64, u64, u64, Option<u64>)>, u64, u64) {
+/// bincode (fixint, little endian) layout of `CacheSnapshot<u64,u64>`; `None` if the bytes do not have it
+fn decode_snapshot(b: &[u8]) -> Option<(Vec<(u64, u64, u64, Option<u64>)>, u64, u64)> {
   let mut p = 0usize;
-  let u64_ = |p: &mut usize| { let v = u64::from_le_bytes(b[*p..*p + 8].try_into().unwrap()); *p += 8; v };
-  let n = u64_(&mut p);
+  let u64_ = |p: &mut usize| -> Option<u64> { let v = u64::from_le_bytes(b.get(*p..*p + 8)?.try_into().ok()?); *p += 8; Some(v) };
+  let n = u64_(&mut p)?;
+  if n > b.len() as u64 { return None; }
   let mut es = vec![];
   for _ in 0..n {
-    let (k, v, c) = (u64_(&mut p), u64_(&mut p), u64_(&mut p));
-    let tag = b[p]; p += 1;
-    let ttl = if tag == 1 { let s = u64_(&mut p); let ns = u32::from_le_bytes(b[p..p + 4].try_into().unwrap()); p += 4; Some(s * 1000 + ns as u64 / 1_000_000) } else { None };
+    let (k, v, c) = (u64_(&mut p)?, u64_(&mut p)?, u64_(&mut p)?);
+    let tag = *b.get(p)?; p += 1;
+    let ttl = match tag { 1 => { let s = u64_(&mut p)?; let ns = u32::from_le_bytes(b.get(p..p + 4)?.try_into().ok()?); p += 4; Some(s.checked_mul(1000)?.checked_add(ns as u64 / 1_000_000)?) } 0 => None, _ => return None };
     es.push((k, v, c, ttl));
   }
-  let cap = u64_(&mut p); let sh = u64_(&mut p);
-  (es, cap, sh)
+  let cap = u64_(&mut p)?; let sh = u64_(&mut p)?;
+  if p != b.len() { return None; }
+  Some((es, cap, sh))
 }
+fn clip(s: &str) -> String { if s.len() > 300 { format!("{}…", &s[..300]) } else { s.to_string() } }
 
 
 fn run_case(id: &str, cfg: &Cfg, ops: &[String]) -> String {
   let mut carried: Vec<&'static str> = vec![];
-  for _ in 0..5 {
+  const ATTEMPTS: usize = 4;
+  for attempt in 0..ATTEMPTS {
     let mut r = Runner::new(id, cfg.clone());
-    for op in ops { r.exec(op); if r.abandoned.is_some() { break; } }
-    if let Some(sig) = r.abandoned { if !carried.contains(&sig) { carried.push(sig); } r.lis.gate_closed.store(false, Ordering::SeqCst); continue; }
-    for sig in &carried { r.fail(sig, "in an earlier execution of this case a notification was not delivered within 20 s; it arrived only after a later, unrelated send woke the notifier thread (the case was then re-run from scratch)".to_string()); }
+    r.last_attempt = attempt + 1 == ATTEMPTS;
+    for op in ops { r.exec(op); if r.abandoned.is_some() || r.stop { break; } }
+    if let Some(sig) = r.abandoned {
+      // a stalled notifier thread (nothing at all delivered) is a machinery hiccup, retried silently; on the last attempt it is reported
+      if sig != "listener:notifier-thread-stalled" && !carried.contains(&sig) { carried.push(sig); }
+      eprintln!("cacheh: case {id} attempt {attempt}: {sig}, re-running");
+      r.lis.gate_closed.store(false, Ordering::SeqCst); continue; }
+    if r.stop { r.tr.raw("# the case ends here: the failure reported below makes the rest of the history meaningless"); }
+    for sig in &carried { r.fail(sig, format!("in an earlier execution of this case a notification was not delivered within {NOTIFY_WAIT:?}; it arrived only after a later, unrelated send woke the notifier thread (the case was then re-run from scratch)")); }
     let (out, spurious) = r.finish();
     if !spurious { return out; }
   }
@@ -737,6 +914,27 @@ fn run_case(id: &str, cfg: &Cfg, ops: &[String]) -> String {
 
 // ------------------------------------------------------------------ generator
 const POLICIES: [&str; 8] = ["lru", "fifo", "sieve", "clock", "random", "slru", "arc", "tinylfu"];
+
+/// One hand-polled `iter_stream` with one or two contended refills: `pre` items first (0 = the very FIRST refill is
+/// contended), then an entry guard on the first / last / some shard (Occupied or Vacant: keys >= nkeys are never
+/// inserted), polls until Pending (or the end, if the cursor is already past that shard), release, drain.
+fn stream_script(rng: &mut Rng, cfg: &Cfg, nkeys: u64, batches: &[u64], ops: &mut Vec<String>) {
+  let shards = cfg.shards as u64;
+  ops.push(format!("stream_open {}", *rng.pick(batches)));
+  let rounds = if rng.chance(1, 3) { 2 } else { 1 };
+  for round in 0..rounds {
+    let pre = if round == 0 { *rng.pick(&[0u64, 0, 0, 1, 2, 3, 5]) } else { *rng.pick(&[0u64, 1, 2, 4]) };
+    if pre > 0 { ops.push(format!("stream_poll {pre}")); }
+    let sh = match rng.below(5) { 0 => 0, 1 => shards - 1, _ => rng.below(shards) };
+    let k = sh + shards * rng.below(nkeys / shards + 2);
+    ops.push(format!("hold_entry {k}"));
+    ops.push(format!("stream_poll {}", nkeys + 2));
+    if rng.chance(1, 3) { ops.push("stream_poll".into()); }
+    if (cfg.ttl.is_some() || cfg.tti.is_some()) && rng.chance(1, 4) { ops.push(format!("advance {}", *rng.pick(&[1u64, 500, 1000, 2000]))); }
+    ops.push("release_entry".into());
+  }
+  ops.push(format!("stream_poll {}", nkeys + 2));
+}
 
 struct Gen { rng: Rng, vid: u64, nkeys: u64, now: u64, deadlines: Vec<u64>, cfg: Cfg, ops: Vec<String>, held: bool, gate: bool, snap: bool }
 impl Gen {
@@ -768,7 +966,7 @@ impl Gen {
       "ttl" => vec![(22, "insert"), (8, "insert_ttl"), (14, "get"), (8, "fetch"), (8, "peek"), (4, "remove"), (3, "invalidate"), (1, "clear"), (18, "advance"), (8, "maint"), (3, "cost"), (6, "or_insert"), (4, "compute"), (6, "fetch_with"), (3, "multiget"), (2, "multi_insert"), (2, "iter"), (2, "iter_snapshot"), (1, "metrics"), (1, "hold"), (1, "release")],
       "capacity" => vec![(40, "insert"), (3, "insert_ttl"), (10, "get"), (5, "fetch"), (2, "peek"), (4, "remove"), (2, "invalidate"), (1, "clear"), (3, "advance"), (12, "maint"), (5, "cost"), (3, "or_insert"), (2, "compute"), (3, "fetch_with"), (3, "multiget"), (4, "multi_insert"), (2, "multi_remove"), (1, "multi_invalidate"), (1, "iter"), (2, "metrics")],
       "listener" => vec![(34, "insert"), (4, "insert_ttl"), (8, "get"), (3, "fetch"), (8, "remove"), (6, "invalidate"), (2, "clear"), (8, "advance"), (12, "maint"), (2, "cost"), (3, "or_insert"), (2, "fetch_with"), (3, "multi_insert"), (3, "multi_remove"), (2, "multi_invalidate"), (1, "gate")],
-      "iter" | "snapshot" => vec![(30, "insert"), (5, "insert_ttl"), (6, "get"), (3, "peek"), (4, "remove"), (1, "clear"), (10, "advance"), (5, "maint"), (2, "cost"), (3, "or_insert"), (2, "compute"), (2, "fetch_with"), (4, "multi_insert"), (8, "iter"), (6, "iter_snapshot"), (6, "snapshot"), (3, "restore"), (1, "metrics")],
+      "iter" | "snapshot" => vec![(30, "insert"), (5, "insert_ttl"), (6, "get"), (3, "peek"), (4, "remove"), (1, "clear"), (10, "advance"), (5, "maint"), (2, "cost"), (3, "or_insert"), (2, "compute"), (2, "fetch_with"), (4, "multi_insert"), (8, "iter"), (6, "iter_snapshot"), (6, "snapshot"), (3, "restore"), (1, "metrics"), (if focus == "iter" { 4 } else { 1 }, "stream")],
       _ => vec![(30, "insert"), (4, "insert_ttl"), (14, "get"), (8, "fetch"), (6, "peek"), (6, "remove"), (4, "invalidate"), (2, "clear"), (5, "advance"), (6, "maint"), (2, "cost"), (8, "or_insert"), (8, "compute"), (3, "try_compute"), (6, "fetch_with"), (4, "multiget"), (3, "multi_insert"), (2, "multi_remove"), (1, "multi_invalidate"), (2, "iter"), (2, "iter_snapshot"), (1, "metrics"), (2, "hold"), (2, "release"), (1, "occ")],
     };
     let op = *self.rng.weighted(&w);
@@ -790,6 +988,7 @@ impl Gen {
         if !inter.is_empty() { let d: u64 = inter.split(':').nth(1).unwrap().parse().unwrap(); let _ = d; }
         self.ops.push(format!("{a}iter {b}{inter}")); self.resync_clock(); }
       "iter_snapshot" => { let inter = if self.rng.chance(1, 3) { format!(" {}:{}", self.rng.below(6), *self.rng.pick(&[1u64, 500, 1000, 2000, 3000])) } else { String::new() }; self.ops.push(format!("{a}iter_snapshot{inter}")); self.resync_clock(); }
+      "stream" => { let (cfg, nkeys) = (self.cfg.clone(), self.nkeys); stream_script(&mut self.rng, &cfg, nkeys, &[1, 1, 2, 2, 3, 4, 5, 64], &mut self.ops); }
       "snapshot" => { self.snap = true; self.ops.push(format!("{a}snapshot")); }
       "restore" => if self.snap { self.ops.push("restore".to_string()); self.held = false; },
       "hold" => { let k = self.key(); self.held = true; self.ops.push(format!("{a}hold {k}")); }
@@ -838,11 +1037,54 @@ fn gen_case(seed: u64, i: usize, tier: &str, focus: &str) -> (Cfg, Vec<String>) 
     ops.push(format!("{}iter 64", a(&mut rng)));
     ops.push(format!("{}iter {}", a(&mut rng), *rng.pick(&[1u64, 7, 32, 63, 64, 65, 128])));
     ops.push(format!("{}iter 64 {}:{}", a(&mut rng), *rng.pick(&[0u64, 1, 63, 64, 65]), *rng.pick(&[1u64, 500, 1000, 3000])));
+    if focus == "iter" || rng.chance(1, 3) { let nk = cfg.nkeys; stream_script(&mut rng, &cfg, nk, &[64, 64, 63, 32, 7, 128], &mut ops); }
     ops.push(format!("{}iter_snapshot", a(&mut rng)));
     ops.push(format!("{}snapshot", a(&mut rng)));
     if rng.chance(1, 2) { ops.push("advance 500".into()); }
     ops.push("restore".into());
     ops.push("iter 64".into()); ops.push("cost".into()); ops.push("maint".into()); ops.push("iter_snapshot".into()); ops.push("cost".into());
+    return (cfg, ops);
+  }
+  if focus == "iter" && rng.chance(1, 5) {
+    // the async stream with contended refills: a populated cache (several shards, a few entries with their own, possibly
+    // already passed, deadline), then several hand-polled streams with different batch sizes and lock positions
+    let mut cfg = cfg.clone();
+    cfg.shards = *rng.pick(&[1usize, 2, 4, 8, 8]);
+    if let Some(c) = cfg.cap { cfg.cap = Some(c + 20); cfg.pcap = (c + 20 + cfg.shards as u64 - 1) / cfg.shards as u64; }
+    cfg.nkeys = *rng.pick(&[4u64, 6, 9, 12, 20]);
+    let nk = cfg.nkeys;
+    let mut ops: Vec<String> = vec![];
+    let mut vid = 500u64;
+    for k in 0..nk { if rng.chance(4, 5) { vid += 1;
+      if rng.chance(1, 5) { ops.push(format!("insert_ttl {k} {vid} 1 {}", *rng.pick(&[400u64, 1000, 3000]))); } else { ops.push(format!("{}insert {k} {vid} 1", if !cfg.mc_always && rng.chance(1, 3) { "a." } else { "" })); } } }
+    if rng.chance(1, 2) { ops.push("maint".into()); }
+    if rng.chance(1, 2) { ops.push(format!("advance {}", *rng.pick(&[1u64, 400, 500, 1000]))); }
+    for _ in 0..rng.range(1, 3) {
+      stream_script(&mut rng, &cfg, nk, &[1, 1, 2, 2, 3, 4, 5, 64], &mut ops);
+      if rng.chance(1, 3) { ops.push(format!("remove {}", rng.below(nk))); }
+      if rng.chance(1, 4) { ops.push(format!("advance {}", *rng.pick(&[500u64, 1000]))); }
+    }
+    ops.push("iter 64".into()); ops.push("cost".into());
+    return (cfg, ops);
+  }
+  if focus == "snapshot" && rng.chance(1, 5) {
+    // serialisation round trip of a snapshot whose entries have NO deadline / a mix: no cache-wide ttl, plain inserts
+    // next to a few `insert_with_ttl`
+    let mut cfg = cfg.clone();
+    cfg.ttl = None; cfg.swr = None; if rng.chance(2, 3) { cfg.tti = None; }
+    if let Some(c) = cfg.cap { cfg.cap = Some(c + 12); cfg.pcap = (c + 12 + cfg.shards as u64 - 1) / cfg.shards as u64; }
+    let nk = cfg.nkeys;
+    let mut ops: Vec<String> = vec![];
+    let mut vid = 700u64;
+    let with_ttl = rng.below(3);   // 0: no entry has a deadline, otherwise about every third has its own
+    for k in 0..nk { if k == 0 || rng.chance(3, 4) { vid += 1; let c = rng.range(1, 3);
+      if with_ttl > 0 && rng.chance(1, 3) { ops.push(format!("insert_ttl {k} {vid} {c} {}", *rng.pick(&[500u64, 1500, 3000, 5000]))); } else { ops.push(format!("insert {k} {vid} {c}")); } } }
+    if rng.chance(1, 2) { ops.push("maint".into()); }
+    if rng.chance(1, 3) { ops.push(format!("advance {}", *rng.pick(&[1u64, 400, 1000]))); }
+    ops.push(format!("{}snapshot", if !cfg.mc_always && rng.chance(1, 3) { "a." } else { "" }));
+    if rng.chance(1, 2) { ops.push("advance 500".into()); }
+    ops.push("restore".into()); ops.push("iter 64".into()); ops.push("snapshot".into()); ops.push("cost".into());
+    for k in 0..nk { ops.push(format!("peek {k}")); }
     return (cfg, ops);
   }
   let len = if tier == "thorough" { rng.range(6, 90) } else { rng.range(5, 45) } as usize;
@@ -977,7 +1219,7 @@ fn stress_case(id: &str, seed: u64) -> String {
   // listener
   let t0 = Instant::now();
   let removed: Vec<(u64, u64)> = evs.iter().filter(|e| e.kind == K_REMOVE).filter_map(|e| e.got.map(|v| (e.key, v))).collect();
-  while unbounded && removed.len() <= 100 && lis.count.load(Ordering::SeqCst) < removed.len() && t0.elapsed() < Duration::from_secs(20) { std::thread::sleep(ms(1)); }
+  while unbounded && removed.len() <= 100 && lis.count.load(Ordering::SeqCst) < removed.len() && t0.elapsed() < Duration::from_secs(3) { std::thread::sleep(ms(1)); }
   let notifs = lis.events.lock().unwrap().clone();
   let mut seen = BTreeSet::new();
   for (k, v, r) in &notifs {
@@ -995,7 +1237,7 @@ fn stress_case(id: &str, seed: u64) -> String {
       cache.insert(999_999, 1, 1); cache.remove(&999_999);
       let t1 = Instant::now();
       let arrived = |l: &Lis| { let ev = l.events.lock().unwrap(); missing.iter().all(|(k, v)| ev.iter().any(|n| n.0 == *k && n.1 == *v && n.2 == 'I')) };
-      while !arrived(&lis) && t1.elapsed() < Duration::from_secs(5) { std::thread::sleep(ms(1)); }
+      while !arrived(&lis) && t1.elapsed() < Duration::from_secs(2) { std::thread::sleep(ms(1)); }
       if arrived(&lis) { fail("stress:listener:notification-stuck-in-queue-until-next-send", format!("remove returned {:?}; their notifications were delivered only after a later, unrelated send woke the notifier thread (waited {:?} before)", missing, t0.elapsed())); }
       else { fail("stress:listener:remove-not-notified", format!("remove returned {:?}, no Invalidated notification even after a later send", missing)); }
     }
